@@ -256,6 +256,12 @@ pub fn exec(m: Mode, spec: &Spec, r: &mut RunResult) {
                         }
                     }
                 }
+                if frag.as_ref().map(|(prog, _)| wgen::implied_bound_cycle(prog)).unwrap_or(false) {
+                    sig.push_str("+implied-bound-cycle");
+                }
+                if crate::ssim::nonlinear_impl_header(&spec.world.items.join("\n")) {
+                    sig.push_str("+nonlinear");
+                }
                 let class = if m == Mode::C13 { "order-changes-answer" } else { "filter-changes-answer" };
                 if !r.violations.iter().any(|v| v.class == class) {
                     r.violate(
